@@ -78,10 +78,11 @@ CHECKS = {
              "raw*factor+offset and phys2raw(raw2phys(raw)) = raw for EVERY integer raw with <= 28 digits (all widths 1..64, signed or not) whenever the "
              "exact results have <= 28 significant digits and factor <> 0; two _refuted witnesses show both digit hypotheses are needed; factor 0 -> 1; "
              "value tables (label -> key, named value = label or scaled number, unique-label round trip); default min/max are the images of the raw "
-             "range bounds. Tie: 24k decimal operations vs the C decimal module compared as as_tuple(), signal construction and per-raw results; search "
+             "range bounds. Translator tie (coq/gen/Tie_scaling.v): Signal.calculate_raw_range regenerated from the current source by harness/py2coq.py is "
+             "proved equal to the model for all widths 1..64. Tie: 24k decimal operations vs the C decimal module compared as as_tuple(), signal construction and per-raw results; search "
              "with exact Fractions over every raw for widths <= 12 x 64 scalings.",
              note=TB + "Model: coq/model/Decimal.v, Scaling.v, ValueTable.v. The C decimal module and Decimal(str) parsing are trusted (tied by differential runs); the sign of zero is not modelled; float signals and non-label strings are outside.",
-             technique="Coq proof over a Gallina model of decimal arithmetic + model/implementation correspondence + exact-rational search oracle", ref="5/C04"),
+             technique="Coq proof over a Gallina model of decimal arithmetic + source-to-Gallina translator tie for the raw range + model/implementation correspondence + exact-rational search oracle", ref="5/C04"),
  "C10": dict(text="Theorems (coq/props/C10.v) prove by induction over ALL operation sequences on any number of matrices (add/remove/delete/rename frames, "
              "identifier replaced or changed in place, reader-style append, add_ecu, copy_frame, merge, lookups) that the memo invariant holds, that "
              "frame_by_id returns a frame currently in that matrix carrying the key and None exactly when a scan finds none, that name/PGN/header-id "
